@@ -226,6 +226,9 @@ pub struct ExecCfg {
     pub lose_all_direct: bool,
     /// every distributor batch is lost while direct messages are delivered (concurrency block)
     pub lose_batches: bool,
+    /// a late duplicate of the direct message of an earlier single operation is an extra event
+    /// (delay and duplication of direct messages), also after the last operation
+    pub late_duplicates: bool,
     pub n_nodes: usize,
     pub mem_store: bool,
     pub allow_restart: bool,
@@ -325,8 +328,11 @@ where
         }
     }
     let mut jumped = false;
+    // direct messages of the single operations done so far: (issuer index, id, stamp, bytes)
+    let mut sent: Vec<(usize, Key, HLCTimestamp, Option<Vec<u8>>)> = Vec::new();
     for (oi, op) in ops.iter().enumerate() {
         wall.tick();
+        let log_before_op = cluster.nodes[op.node].storage.log_len();
         let skew = cfg.skew_minutes.get(op.node).copied().unwrap_or(0);
         if skew > 0 {
             wall.advance(std::time::Duration::from_secs(skew * 60));
@@ -355,6 +361,13 @@ where
         };
         drop(window);
         vkit::e2::settle().await;
+        if cfg.late_duplicates && matches!(op.kind, Kind::Put(_) | Kind::Del(_)) {
+            let log = cluster.nodes[op.node].storage.log();
+            let own = cluster.nodes[op.node].id;
+            if let Some((id, ts, data)) = log[log_before_op.min(log.len())..].iter().flat_map(|e| e.docs.iter()).find(|(_, ts, _)| ts.node() == own) {
+                sent.push((op.node, *id, *ts, data.clone()));
+            }
+        }
         if skew > 0 {
             wall.rewind(std::time::Duration::from_secs(skew * 60));
         }
@@ -401,19 +414,36 @@ where
         }
         // extra events in the gap after this operation (not after the last one: the end
         // phase below covers that)
-        if oi + 1 < ops.len() || cfg.faulty_repairs || cfg.time_jumps {
+        if oi + 1 < ops.len() || cfg.faulty_repairs || cfg.time_jumps || cfg.late_duplicates {
             for _ in 0..2 {
                 let n_ticks = n;
                 let n_repairs = n * (n - 1);
                 let n_restarts = if cfg.allow_restart { n } else { 0 };
                 let n_jumps = if cfg.time_jumps && !jumped { 1 } else { 0 };
-                let c = chooser.borrow_mut().choose(1 + n_ticks + n_repairs + n_restarts + n_jumps);
+                let n_dups = sent.len();
+                let c = chooser.borrow_mut().choose(1 + n_ticks + n_repairs + n_restarts + n_jumps + n_dups);
                 if c == 0 {
                     break;
                 }
                 wall.tick();
                 let c = c - 1;
-                if c >= n_ticks + n_repairs + n_restarts {
+                if c >= n_ticks + n_repairs + n_restarts + n_jumps {
+                    let (issuer, id, ts, data) = sent[c - (n_ticks + n_repairs + n_restarts + n_jumps)].clone();
+                    out.events.push(format!("late duplicate of node{issuer}'s direct message for id {id} at {ts} reaches the other nodes"));
+                    for j in 0..n {
+                        if j == issuer {
+                            continue;
+                        }
+                        let from = &cluster.nodes[issuer];
+                        let channel = from.network.get_or_connect(cluster.nodes[j].addr);
+                        let mut client = datacake_eventual_consistency::verif::ConsistencyClient::<FaultStore<I>>::new(from.clock.clone(), channel);
+                        let _ = match &data {
+                            Some(bytes) => client.put(KS, datacake_eventual_consistency::Document::new(id, ts, bytes.clone()), from.id, from.addr).await,
+                            None => client.del(KS, id, ts).await,
+                        };
+                        vkit::e2::settle().await;
+                    }
+                } else if c >= n_ticks + n_repairs + n_restarts {
                     jumped = true;
                     out.events.push("55 minutes pass".to_string());
                     wall.advance(std::time::Duration::from_secs(JUMP_MINUTES * 60));
@@ -719,6 +749,7 @@ pub fn case_json(cfg: &ExecCfg, ops: &[OpSpec], run: &Run, out: &Outcome) -> J {
         .set("concurrent", out.concurrent)
         .set("lose_all_direct", cfg.lose_all_direct)
         .set("lose_batches", cfg.lose_batches)
+        .set("late_duplicates", cfg.late_duplicates)
         .set("fine_grained", cfg.fine_grained)
         .set("allow_unreachable_node", cfg.allow_unreachable_node)
         .set("faulty_repairs", cfg.faulty_repairs)
@@ -839,12 +870,12 @@ pub fn run(tier: Tier) -> i32 {
     let mut summary = vkit::e2::Summary::default();
     let mut blocks_json = Vec::new();
 
-    let two = |mem| ExecCfg { allow_unreachable_node: false, faulty_repairs: false, time_jumps: false, script: vec![], skew_minutes: vec![], fine_grained: false, prelude: vec![], lose_all_direct: false, lose_batches: false, n_nodes: 2, mem_store: mem, allow_restart: true, check_side_conditions_every_event: false };
+    let two = |mem| ExecCfg { allow_unreachable_node: false, faulty_repairs: false, time_jumps: false, script: vec![], skew_minutes: vec![], fine_grained: false, prelude: vec![], lose_all_direct: false, lose_batches: false, late_duplicates: false, n_nodes: 2, mem_store: mem, allow_restart: true, check_side_conditions_every_event: false };
     let mut blocks: Vec<Block> = Vec::new();
     let al2 = op_alphabet(2, &[Consistency::None, Consistency::All]);
     let al2_thin: Vec<OpSpec> = al2.iter().copied().filter(|o| !(o.level == Consistency::All && matches!(o.kind, Kind::Put(2) | Kind::Del(2)))).collect();
     let al3 = op_alphabet(3, &[Consistency::None, Consistency::All]);
-    let three = |restart| ExecCfg { allow_unreachable_node: false, faulty_repairs: false, time_jumps: false, script: vec![], skew_minutes: vec![], fine_grained: false, prelude: vec![], lose_all_direct: false, lose_batches: false, n_nodes: 3, mem_store: false, allow_restart: restart, check_side_conditions_every_event: false };
+    let three = |restart| ExecCfg { allow_unreachable_node: false, faulty_repairs: false, time_jumps: false, script: vec![], skew_minutes: vec![], fine_grained: false, prelude: vec![], lose_all_direct: false, lose_batches: false, late_duplicates: false, n_nodes: 3, mem_store: false, allow_restart: restart, check_side_conditions_every_event: false };
     if tier.is_thorough() {
         blocks.push(Block { name: "N=2, 2 operations, <=3 deviations", cfg: two(false), histories: sequences(&al2, 2), bound: 3 });
         blocks.push(Block { name: "N=2, 3 operations, <=2 deviations", cfg: two(false), histories: sequences(&al2, 3), bound: 2 });
@@ -901,6 +932,14 @@ pub fn run(tier: Tier) -> i32 {
             hist.extend(sequences(&al_dup, 2).into_iter().filter(|h| h.iter().any(|o| o.kind == Kind::PutManyDup)));
             blocks.push(Block { name: "N=2, 1-2 operations, at least one put_many carrying the same id twice, <=3 deviations", cfg: two(false), histories: hist, bound: 3 });
         }
+        {
+            let al2_one: Vec<OpSpec> = al2.iter().copied().filter(|o| matches!(o.kind, Kind::Put(1) | Kind::Del(1))).collect();
+            let mut dup = two(false);
+            dup.allow_restart = false;
+            dup.lose_batches = true;
+            dup.late_duplicates = true;
+            blocks.push(Block { name: "N=2, 3 single operations on one id, every batch lost, late duplicates of direct messages as events (also after the last operation), <=3 deviations", cfg: dup, histories: sequences(&al2_one, 3), bound: 3 });
+        }
         let mut anti = two(false);
         anti.lose_all_direct = true;
         blocks.push(Block { name: "N=2, 3 operations, every direct message and batch lost (anti-entropy only), <=2 deviations", cfg: anti, histories: sequences(&al2, 3), bound: 2 });
@@ -927,6 +966,16 @@ pub fn run(tier: Tier) -> i32 {
     } else {
         blocks.push(Block { name: "N=2, 2 operations, <=2 deviations", cfg: two(false), histories: sequences(&al2, 2), bound: 2 });
         blocks.push(Block { name: "N=2, 3 operations (thinned), <=1 deviation", cfg: two(false), histories: sequences(&al2_thin, 3), bound: 1 });
+        // three operations on ONE id with two deviations (two deletes of different nodes around a
+        // put, one message lost and a repair exchange in the middle: added after C01-l)
+        let al2_one: Vec<OpSpec> = al2.iter().copied().filter(|o| matches!(o.kind, Kind::Put(1) | Kind::Del(1))).collect();
+        blocks.push(Block { name: "N=2, 3 single operations on one id, <=2 deviations", cfg: two(false), histories: sequences(&al2_one, 3), bound: 2 });
+        let mut dup = two(false);
+        dup.allow_restart = false;
+        dup.lose_batches = true;
+        dup.late_duplicates = true;
+        let al2_one_none: Vec<OpSpec> = al2_one.iter().copied().filter(|o| o.level == Consistency::None).collect();
+        blocks.push(Block { name: "N=2, 3 single operations (level None) on one id, every batch lost, late duplicates of direct messages as events (also after the last operation), <=2 deviations", cfg: dup, histories: sequences(&al2_one_none, 3), bound: 2 });
         blocks.push(Block { name: "N=2, 2 operations, <=1 deviation, MemStore", cfg: two(true), histories: sequences(&al2, 2), bound: 1 });
         blocks.push(Block { name: "N=3, 2 operations, <=1 deviation", cfg: three(true), histories: sequences(&al3, 2), bound: 1 });
         let mut lagging = two(false);
@@ -1049,7 +1098,7 @@ pub fn run(tier: Tier) -> i32 {
 
     // ---- concurrency block
     {
-        let ccfg = ExecCfg { allow_unreachable_node: false, faulty_repairs: false, time_jumps: false, script: vec![], skew_minutes: vec![], fine_grained: tier.is_thorough(), prelude: vec![], lose_all_direct: false, lose_batches: false, n_nodes: 2, mem_store: false, allow_restart: false, check_side_conditions_every_event: false };
+        let ccfg = ExecCfg { allow_unreachable_node: false, faulty_repairs: false, time_jumps: false, script: vec![], skew_minutes: vec![], fine_grained: tier.is_thorough(), prelude: vec![], lose_all_direct: false, lose_batches: false, late_duplicates: false, n_nodes: 2, mem_store: false, allow_restart: false, check_side_conditions_every_event: false };
         let base = op_alphabet(2, &[Consistency::None, Consistency::All]);
         let mut pairs: Vec<Vec<OpSpec>> = Vec::new();
         for a in &base {
@@ -1067,7 +1116,7 @@ pub fn run(tier: Tier) -> i32 {
         }
         let before = summary.executions;
         let conc_bound = std::env::var("VERIF_C01_CONC_BOUND").ok().and_then(|v| v.parse().ok()).unwrap_or(tier.pick(3usize, 4));
-        let lossy = ExecCfg { allow_unreachable_node: false, faulty_repairs: false, time_jumps: false, script: vec![], skew_minutes: vec![], fine_grained: false, prelude: vec![], lose_all_direct: true, lose_batches: false, n_nodes: 2, mem_store: false, allow_restart: false, check_side_conditions_every_event: false };
+        let lossy = ExecCfg { allow_unreachable_node: false, faulty_repairs: false, time_jumps: false, script: vec![], skew_minutes: vec![], fine_grained: false, prelude: vec![], lose_all_direct: true, lose_batches: false, late_duplicates: false, n_nodes: 2, mem_store: false, allow_restart: false, check_side_conditions_every_event: false };
         // the repair races additionally start from a keyspace that already exists at the source
         // and has not been synchronised yet (otherwise the repairing node would not fetch it)
         let with_prelude = |base: &ExecCfg| ExecCfg {
@@ -1078,7 +1127,7 @@ pub fn run(tier: Tier) -> i32 {
             skew_minutes: vec![],
             fine_grained: false,
             prelude: vec![OpSpec { node: 1, kind: Kind::Put(2), level: Consistency::None }],
-            lose_all_direct: base.lose_all_direct, lose_batches: false,
+            lose_all_direct: base.lose_all_direct, lose_batches: false, late_duplicates: false,
             n_nodes: 2,
             mem_store: false,
             allow_restart: false,
@@ -1111,7 +1160,7 @@ pub fn run(tier: Tier) -> i32 {
         // request that applies the difference, so that the batch carries a document the node
         // already holds next to one it lacks; every distributor batch is lost, so the lacking
         // one can only arrive through this and later exchanges
-        let direct_p5 = ExecCfg { lose_batches: true, fine_grained: true, ..with_prelude(&ccfg) };
+        let direct_p5 = ExecCfg { lose_batches: true, late_duplicates: false, fine_grained: true, ..with_prelude(&ccfg) };
         let direct_p6 = ExecCfg {
             prelude: vec![
                 OpSpec { node: 1, kind: Kind::Put(1), level: Consistency::All },
@@ -1253,6 +1302,7 @@ pub fn replay(case: &J) -> i32 {
         prelude: case.get("prelude").and_then(|v| v.as_arr()).unwrap_or(&[]).iter().filter_map(|o| al_for_prelude.iter().copied().find(|a| op_json(a).as_str() == o.as_str())).collect(),
         lose_all_direct: case.get("lose_all_direct").and_then(|v| v.as_bool()).unwrap_or(false),
         lose_batches: case.get("lose_batches").and_then(|v| v.as_bool()).unwrap_or(false),
+        late_duplicates: case.get("late_duplicates").and_then(|v| v.as_bool()).unwrap_or(false),
         n_nodes,
         mem_store: case.get("store").and_then(|v| v.as_str()) == Some("MemStore"),
         allow_restart: case.get("restart_events_enabled").and_then(|v| v.as_bool()).unwrap_or(true),
